@@ -543,3 +543,11 @@ PLANS["C13"]["evidence"] = {"states": ["instances", "histories"], "transitions":
 PLANS["C12"]["rule"] += ("; family hist with verd=1: after EVERY step of every history (depth 2 over the full alphabet; solve ; any operation ; solve) QSexact_basis_optimalstatus, QSexact_basis_dualstatus and QSexact_verify are called "
                          "on the problem's own current basis - the calls are part of the history, so state they keep across edits is exercised - and compared with exact elimination on the model as edited so far")
 PLANS["C13"]["rule"] += ("; family hist with binv=1: after every OPTIMAL solve inside solve ; any operation ; solve histories (also on start problems built rows-first) mpq_QSget_basis_order / QSget_binv_row / QSget_tableau_row are multiplied back against the edited model")
+
+# C01/C02 also hold after edits: the sandwich histories (solve ; any operation ; solve) judge the last solve's certificate
+_SW3P = hist("hist-sw3-prod", "prod", 3, weight=1, crash_props=["C17", "C01", "C02"], opts={"depth": 3, "reduced": 0, "sandwich": 1})
+for _pid in ("C01", "C02"):
+    PLANS[_pid]["quick"] = PLANS[_pid]["quick"] + [_SW3P]
+    PLANS[_pid]["thorough"] = PLANS[_pid]["thorough"] + [_SW3P, hist("hist-sw4-prod", "prod", 4, weight=4, crash_props=["C17", "C01", "C02"], opts={"depth": 4, "reduced": 0, "sandwich": 1})]
+    PLANS[_pid]["rule"] = PLANS[_pid]["rule"] + "; family hist with sandwich=1: start problem ; solve ; any of the 66 operations ; solve - the certificate oracle is applied to the answers served after the last call (cached or re-solved)"
+    PLANS[_pid]["evidence"] = {"states": ["instances", "histories"], "transitions": ["executions", "api_transitions"], "nontrivial": ["instances_nontrivial", "histories"]}
